@@ -248,7 +248,14 @@ struct BinObs {
     stderr: Vec<u8>,
     stdout: Vec<u8>,
     request: Option<Vec<u8>>,
+    /// everything the generator read: the request followed by its own arguments
+    stdin: Option<Vec<u8>>,
     crashed: bool,
+}
+
+/// The capturing generator is configured with several arguments: they are part of what it receives.
+fn capture_args() -> Vec<(String, String)> {
+    [("namespace", "Demo"), ("visibility", "internal"), ("nullable", "enable"), ("style", "new"), ("k5", "")].iter().map(|(k, v)| (k.to_string(), v.to_string())).collect()
 }
 
 fn run_binary(files: &[(usize, bool)], seed: Option<u32>) -> BinObs {
@@ -266,15 +273,16 @@ fn run_binary(files: &[(usize, bool)], seed: Option<u32>) -> BinObs {
     }
     sc.gens.push(Gen { name: "capture".into(), install: Install::Script(Script(vec![Step::ReadAll, Step::Stdout(encode_reply(&[], &[])), Step::Exit(0)])) });
     argv.push("-G".into());
-    argv.push("{relgen0}".into());
+    argv.push(crate::proc::gen_spec("{relgen0}", &capture_args()));
     sc.argv = argv;
     if let Some(s) = seed {
         sc.env.push(("LD_PRELOAD".into(), shim_path()));
         sc.env.push(("VERIF_HASH_SEED".into(), s.to_string()));
     }
     let o = run(&sc, Duration::from_secs(20));
-    let request = o.gens.get(0).and_then(|g| g.stdin.clone()).and_then(|s| split_request(&s, &[]).map(|r| r.to_vec()));
-    BinObs { exit: o.exit_code, crashed: o.timed_out || o.signal.is_some() || o.panic_location().is_some(), stderr: o.stderr, stdout: o.stdout, request }
+    let stdin = o.gens.get(0).and_then(|g| g.stdin.clone());
+    let request = stdin.as_ref().and_then(|s| split_request(s, &capture_args()).map(|r| r.to_vec()));
+    BinObs { exit: o.exit_code, crashed: o.timed_out || o.signal.is_some() || o.panic_location().is_some(), stderr: o.stderr, stdout: o.stdout, request, stdin }
 }
 
 pub struct Assignments {
@@ -343,15 +351,15 @@ impl Family for Assignments {
                 out.violate("c15/binary/diagnostics-depend-on-hash-seed", format!("seed 0: exit {:?} stderr {}\nseed {seed}: exit {:?} stderr {}\n{}", base.exit, show_bytes(&base.stderr), o.exit, show_bytes(&o.stderr), desc()));
                 break;
             }
-            if o.request != base.request {
-                out.violate("c15/binary/request-depends-on-hash-seed", format!("the generator request differs between hash seeds 0 and {seed}\n{}", desc()));
+            if o.request != base.request || o.stdin != base.stdin {
+                out.violate("c15/binary/request-depends-on-hash-seed", format!("what the generator receives (the request and its five arguments) differs between hash seeds 0 and {seed}\n{}", desc()));
                 break;
             }
         }
         // same seed twice: byte-identical
         let again = run_binary(&files, Some(0));
         out.steps += 1;
-        if again.stderr != base.stderr || again.stdout != base.stdout || again.request != base.request || again.exit != base.exit {
+        if again.stderr != base.stderr || again.stdout != base.stdout || again.request != base.request || again.stdin != base.stdin || again.exit != base.exit {
             out.violate("c15/binary/two-runs-of-the-same-input-differ", desc());
         }
         // against the canonical arrangement: all three as sources in pool order
@@ -390,7 +398,7 @@ impl Family for Assignments {
                 (Err(e), _) | (_, Err(e)) => out.violate("c15/binary/request-undecodable", format!("{e}\n{}", desc())),
             }
         } else if canon.exit == Some(0) {
-            out.violate("c15/binary/request-missing", desc());
+            out.violate("c15/binary/request-missing", format!("the generator's input does not end with its own arguments {:?}, or there is none\n{}", capture_args(), desc()));
         }
         out.class = format!("exit{:?}:{}warnings", base.exit, norm(&base.stderr).iter().filter(|l| l.starts_with("warning")).count());
         out
